@@ -13,7 +13,7 @@ for _v in ('none', 'opq:uval'):
         if _u != 'none':
             exp.append("('units', self.units)")
         CONTRACTS[f'AttrSetup.items[value={_v != "none"},units={_u != "none"}]'] = dict(
-            target='AttrSetup.items', props=['C05', 'C13'], self_fields={'value': _v, 'units': _u}, params={}, returns='none',
+            target='AttrSetup.items', props=['C05', 'C13', 'C12'], self_fields={'value': _v, 'units': _u}, params={}, returns='none',
             requires=(['self.value is not None'] if _v != 'none' else []) + (['self.units is not None'] if _u != 'none' else []),
             ensures=[('every-part-that-was-given-is-forwarded-even-if-falsy', '__out__ == (' + ''.join(e + ', ' for e in exp) + ')')])
 
